@@ -50,10 +50,22 @@ def rrun : RSt → Bytes → Option Bytes
 /-- everything `blast()` writes after the DATA command was accepted -/
 def rblast (m : Bytes) : Option Bytes := rrun .top m
 
+/-- everything handed to `substdio_put` while the bytes of `m` are consumed, *before* end of input is
+seen — defined also when the message is going to be refused (`rrun` forgets it in that case) -/
+def rpart : RSt → Bytes → Bytes
+  | _, [] => []
+  | s, c :: m => (rstep s c).2 ++ rpart (rstep s c).1 m
+
 /-- the state reached (used to say when a message is refused) -/
 def rstate : RSt → Bytes → RSt
   | s, [] => s
   | s, c :: m => rstate (rstep s c).1 m
+
+/-- everything `blast()` hands to `substdio_put` on message `m`, whatever the outcome: `rpart`, then the
+final `.` CR LF (after CR LF if the message ended in a CR) unless it is refused (`perm_partialline()`).
+What is on the wire at any moment — when the connection drops, when a read fails, when the message is
+refused — is a prefix of this. -/
+def rfull (s : RSt) (m : Bytes) : Bytes := rpart s m ++ (rfinish (rstate s m)).getD []
 
 /-! ### The documented line discipline of the encoder (`canon`)
 
@@ -77,5 +89,37 @@ def crun : CSt → Bytes → Bytes
   | s, x :: m => (cstep s x).2 ++ crun (cstep s x).1 m
 
 def canon (m : Bytes) : Bytes := crun .n m
+
+/-! ### `canon` without a state machine
+
+`canonSpec` reads the message in *tokens*, greedily from the left: a CR together with the byte after it
+(CR LF → one line end; CR x → a line end followed by x **taken literally, even when x is itself a CR**),
+a CR at the very end (→ a line end), or any other single byte.  `canonDoc` is the rule as documented
+("LF → CRLF; CRLF kept; bare CR → CRLF"): every CR that is not followed by LF is a line end, and the byte
+after it is examined afresh.  The two differ exactly on messages with two adjacent CRs (`noCRCR`). -/
+
+def canonSpec : Bytes → Bytes
+  | [] => []
+  | [c] => if c = CR then [LF] else [c]
+  | c :: d :: m =>
+      if c = CR then
+        if d = LF then LF :: canonSpec m
+        else LF :: d :: canonSpec m          -- `d` is not looked at again: CR CR LF ↦ LF CR LF
+      else c :: canonSpec (d :: m)
+
+def canonDoc : Bytes → Bytes
+  | [] => []
+  | [c] => if c = CR then [LF] else [c]
+  | c :: d :: m =>
+      if c = CR then
+        if d = LF then LF :: canonDoc m
+        else LF :: canonDoc (d :: m)         -- `d` starts the next line and is examined afresh: CR CR LF ↦ LF LF
+      else c :: canonDoc (d :: m)
+
+/-- no two adjacent CRs -/
+def noCRCR : Bytes → Bool
+  | [] => true
+  | [_] => true
+  | c :: d :: m => !(c == CR && d == CR) && noCRCR (d :: m)
 
 end Nq.SmtpOut
